@@ -82,7 +82,22 @@ func VerifC14_InjectedConfigDB() {
 	rt.Assert(registerAsDatabase() == nil, "injected/register")
 	c14cOption("seed/opt")
 	c14cOption("other/opt")
+	// the two options the configuration system itself reacts to
+	releaseLevelOption = c14cOption(releaseLevelKey)
+	releaseLevelOption.activeFallbackValue = &valueCache{stringVal: ReleaseLevelNameStable}
+	releaseLevelOptionFlag.Set()
+	if expertiseLevel == nil {
+		expertiseLevel = new(int32)
+	}
+	expertiseLevelOption = c14cOption(expertiseLevelKey)
+	expertiseLevelOption.activeFallbackValue = &valueCache{stringVal: ExpertiseLevelNameUser}
+	expertiseLevelOptionFlag.Set()
 	db := database.NewInterface(&database.Options{Local: true, Internal: true})
+	coreSub, err := db.Subscribe(query.New("config:core/"))
+	rt.Assert(err == nil, "injected/subscribe")
+	if err != nil {
+		return
+	}
 	sub, err := db.Subscribe(query.New("config:seed/"))
 	rt.Assert(err == nil, "injected/subscribe")
 	if err != nil {
@@ -94,8 +109,17 @@ func VerifC14_InjectedConfigDB() {
 		rt.Assert(len(sub.Feed) == 1, "injected/pushed-update-delivered-once")
 		<-sub.Feed
 	}
-	want := 1
-	switch rt.Choice("op", 6) {
+	want, wantCore := 1, 0
+	switch rt.Choice("op", 9) {
+	case 6: // the release level is changed
+		rt.Assert(SetConfigOption(releaseLevelKey, ReleaseLevelNameBeta) == nil, "injected/set-release-level")
+		want, wantCore = 0, 1
+	case 7: // the expertise level is changed
+		rt.Assert(SetConfigOption(expertiseLevelKey, ExpertiseLevelNameExpert) == nil, "injected/set-expertise-level")
+		want, wantCore = 0, 1
+	case 8: // the whole configuration is replaced: every option is announced
+		_, _ = ReplaceConfig(map[string]interface{}{"seed/opt": "x", releaseLevelKey: ReleaseLevelNameBeta})
+		want, wantCore = 1, 2
 	case 5: // a set that is refused (wrong type): nothing changed, nothing is delivered
 		rt.Assert(SetConfigOption("seed/opt", 42) != nil, "injected/invalid-set-refused")
 		want = 0
@@ -117,5 +141,6 @@ func VerifC14_InjectedConfigDB() {
 		want = 0
 	}
 	rt.Assert(len(sub.Feed) == want, "injected/matching-change-delivered-exactly-once")
+	rt.Assert(len(coreSub.Feed) == wantCore, "injected/level-option-change-delivered-exactly-once")
 	rt.Reach("injected-end")
 }
